@@ -12,7 +12,7 @@ from rv.gen import fields, lastext
 
 ID = "C04"
 LEVEL = "exploration"
-FORMS = ["std", "ptime", "pdescr_colon", "noperiod", "numunit", "lastcolon"]
+FORMS = ["std", "ptime", "pdescr_colon", "noperiod", "numunit", "lastcolon", "digitunit"]
 SECTIONS = ["Version", "Well", "Curves", "Parameter", "~Tools Used", None]
 RULE = ("lines rendered from conformant (mnemonic, unit, value, description) over text classes (letters, digits, punctuation, "
         "quotes, brackets, non-ASCII; empty allowed except mnemonic; mnemonics with inner blanks; units with interior dots/"
@@ -27,7 +27,7 @@ ASSUMPTIONS = [
     "through-file comparison maps values by lasio's documented conversions: numeric literals compared numerically, v1.2 ~Well value/description layout",
 ]
 REQUIRED = ["contract_evaluations_direct", "form_std", "form_ptime", "form_pdescr_colon",
-            "form_noperiod", "form_numunit", "form_lastcolon", "file_items_compared", "file_reads_preceded_by_other_case", "direct_calls_after_file_reads", "hours_seen_24"]
+            "form_noperiod", "form_numunit", "form_lastcolon", "form_digitunit", "file_items_compared", "file_reads_preceded_by_other_case", "direct_calls_after_file_reads", "hours_seen_24"]
 SOFT_DEADLINE = {"quick": 90, "thorough": 1200}
 LEVEL_TEXT = ("Exploration: each rendered line's parse is checked against the tuple it was rendered from by a post-condition on "
               "the real parser (evaluated on direct and through-file calls); the generators cover the joint space of field "
@@ -164,7 +164,13 @@ def make_line(rng, form, section, hour=None):
         return line, {"name": m, "unit": "", "value": v, "descr": ""}, (form, _cls(v), tuple(map(_pc, p)))
     u = F.unit(rng)
     extra = {}
-    if form == "numunit":
+    if form == "digitunit":
+        # a unit of digits only: it keeps a suffix only across a SINGLE BLANK (the documented '1000 lbf' form); a tab, two blanks
+        # or the separating colon itself end it
+        u = "%d" % rng.choice([1, 5, 10, 25, 1000])
+        v = F.text(rng, colons=False, double_dots=not in_curves) if rng.random() < 0.7 else ""
+        d = F.text(rng, colons=False) if not (in_param and rng.random() < 0.4) else rng.choice(["bit size : nominal", "note: see above", "a: b"])
+    elif form == "numunit":
         u = "%d %s" % (rng.choice([1, 10, 1000, 25]), rng.choice(["lbf", "psi", "kg", "m3/d", "%"]))
         v = F.text(rng, colons=False) if rng.random() < 0.6 else ""
         d = F.text(rng, colons=False)
@@ -196,6 +202,13 @@ def make_line(rng, form, section, hour=None):
         d = rng.choice(["45 min logging", "30 samples", "05", "mm of mud", "59"])
         if rng.random() < 0.6:
             p[4] = ""
+    if form == "digitunit":
+        if v:
+            p[2] = rng.choice(["\t", "  ", "      ", " \t  ", "\t\t", "\t "])
+        else:
+            p[2] = rng.choice(["", " ", "\t", "  "])
+            if ":" in d:
+                p[3] = " "
     line = lastext.hline((m, u, v, d), p)
     head = line[:line.rfind(":")] if ":" not in d else line[:line.find(" : ") + 1]
     if in_curves and ".." in head:
